@@ -578,3 +578,6 @@ def gen_overflow(rng):
     n = rng.randint(2, 12)
     ws = [rng.randint((1 << bits) // n, (1 << bits) - 1) for _ in range(n)]
     return [kind, n] + ws + [6, 7]
+
+
+KNOWN_CLASSES = {"huffman_weight_sum_overflow": weight_sum_overflows}
